@@ -27,3 +27,15 @@ pub mod ice_conn {
         conn.set_remote_addr_from_signaling(addr, "verif");
     }
 }
+
+// Per-area hook modules (one file each under src/verif_hooks/, so independent hooks do not touch the same file).
+pub mod sctp;
+pub mod dtls;
+pub mod ice;
+pub mod peer;
+pub mod lifecycle;
+pub mod rtp_transport;
+pub mod media;
+pub mod decoders;
+pub mod srtp;
+pub mod sdp;
